@@ -8,7 +8,7 @@ for f in sorted(glob.glob('/verif/seeded/C*/meta.json')):
     rows.append((m["name"], m["property"], "; ".join(f"{k}: {x}" for k, x in sorted(m.get("checks_run_against_it", {}).items())),
                  (m.get("breaks") or "")[:260].replace("|", "/"), v.get("demo_rc_without_change"), v.get("demo_rc_with_change"), v.get("repo_tests_summary", "")[:80]))
 out = ["# Seeded regressions (changes to microsoft/onnxscript that break a property while passing the repository's tests)", "",
-       "Produced by independent sub-agents that saw only the property text (round 1: m1/m2, round 2: m3/m4, round 3: the next three numbers of each, rounds 4 and 5: two more each (a: history or two cooperating sites, b: unusual input or option)",
+       "Produced by independent sub-agents that saw only the property text (round 1: m1/m2, round 2: m3/m4, round 3: the next three numbers of each, rounds 4, 5 and 6: two more each (a: history or two cooperating sites, b: unusual input or option; round-6 changes that were not kept are in _rejected/)",
        "property - asked for changes that need something specific to manifest; C01-r*: reverse patches of fix commits); each was confirmed in a scratch worktree",
        "(demo passes without / fails with the change; relevant repository tests still pass) and then run against the checks with",
        "`tools/try_seeded.sh seeded/<name> <PROP>`. `meta.json` in each directory has the details.", "",
